@@ -77,7 +77,7 @@ def run_scenario(chooser: Any, prog_name: str, alphabet: list[str], budget: int,
             task = asyncio.ensure_future(do_op(rec, tr, op, tmo, data))
             horizon = min(tmo if tmo is not None else ack_ms / 1000, ack_ms / 1000) if op == "write" else (tmo or 1.0)
             t_start = asyncio.get_running_loop().time()
-            for at in (0.1, horizon - 0.1):
+            for at in (0.1, horizon - 0.3, horizon - 0.05):
                 delay = t_start + at - asyncio.get_running_loop().time()
                 if delay > 0:
                     await asyncio.wait({task}, timeout=delay)
